@@ -159,10 +159,8 @@ class C17(core.Check):
         self.faketime = FakeTime()
         encoding.time = self.faketime
         self.apps = {}
-        self._dis = []
-        self._orc_sigs = set()
         self.notes.append('encode() passes the repaired variants (rep=1, rep_q0=1, rep_mat=1): the repairs are '
-                          '4aa5a4f (gzip 406), 0380baa (charset q=0), b424a50 (generator body); the code before them '
+                          '4aa5a4f (gzip 406), 0380baa and its follow-up for a listed default (charset q), b424a50 (generator body), 5de6495 (streamed: codec must exist); the code before them '
                           'is refuted in Refuted/R_C17.v')
         self.notes.append('interpretation: 406 from the gzip tool is judged unjustified when identity is not refused '
                           '(identity;q=0, or *;q=0 without an identity entry) or when gzip/x-gzip - named, or through a '
@@ -175,9 +173,6 @@ class C17(core.Check):
 
     def teardown(self):
         self._enc_mod.time = self._old_time
-
-    def corpus(self):
-        return [core.unjson(c) for c in super().corpus()]
 
     # ------------------------------------------------------------------ generation
     def gen_elems(self, rng, values, maxn=4):
@@ -405,7 +400,12 @@ class C17(core.Check):
                         bits.append(0)
                 else:
                     bits.append(1)
-            tab.append([nm, bits])
+            try:
+                ''.encode(nm, 'strict')
+                usable = 1
+            except (LookupError, ValueError):
+                usable = 0
+            tab.append([nm, bits, usable])
         return tab
 
     def encode(self, c):
@@ -476,12 +476,6 @@ class C17(core.Check):
 
     # ------------------------------------------------------------------ comparison
     def compare(self, c, mo, obs):
-        d = self._compare(c, mo, obs)
-        if d:
-            self._dis.append((c, obs, mo, d))
-        return d
-
-    def _compare(self, c, mo, obs):
         if isinstance(mo, str):
             return 'model driver: ' + mo[:80]
         if c['fam'] == 'gzip':
@@ -552,23 +546,7 @@ class C17(core.Check):
 
     # ------------------------------------------------------------------ property oracle
     def oracle(self, c, obs):
-        fails = self.oracle_gzip(c, obs) if c['fam'] == 'gzip' else self.oracle_charset(c, obs)
-        self._orc_sigs.update(sig for sig, _ in fails)
-        return fails
-
-    def extra(self):
-        """core drops correspondence disagreements as soon as any oracle failure exists; the two recorded
-        findings always fail the oracle, so a broken correspondence would go unreported: report it here"""
-        known = {k['signature'] for k in core.load_known()
-                 if k.get('property') == self.pid and k.get('status') == 'known'}
-        dis, sigs = list(self._dis), set(self._orc_sigs)
-        if dis and sigs and sigs <= known:
-            c, obs, mo, d = dis[0]
-            return [core.Violation('correspondence:%s' % self.pid,
-                                   'model and implementation disagree (%d cases): %s' % (len(dis), d),
-                                   case=c, observed=obs, expected=mo, kind='correspondence', no_input=True,
-                                   broken=['correspondence:run_%s' % self.pid])]
-        return []
+        return self.oracle_gzip(c, obs) if c['fam'] == 'gzip' else self.oracle_charset(c, obs)
 
     def oracle_gzip(self, c, obs):
         fails = []
@@ -632,10 +610,11 @@ class C17(core.Check):
 
         def can(nm):
             try:
+                ''.encode(nm, 'strict')          # the codec must exist, even for a body without text
                 for t in texts:
                     t.encode(nm, 'strict')
                 return True
-            except (LookupError, UnicodeError):
+            except (LookupError, ValueError):
                 return False
 
         def q_of(nm):
